@@ -7,7 +7,7 @@ pub use crate::message::UtpMessage;
 pub use crate::recovery::Recovery;
 pub use crate::rtte::RttEstimator;
 pub use crate::seq_nr::SeqNr;
-pub use crate::stream_rx::{AssemblerAddRemoveResult, OutOfOrderQueue, UserRx};
+pub use crate::stream_rx::{AssemblerAddRemoveResult, OutOfOrderQueue, UserRx, VerifRxSnapshot};
 pub use crate::stream_tx::UserTx;
 pub use crate::stream_tx_segments::{OnAckResult, Pipe, PopExpiredProbe, Segments};
 pub use crate::traits::UtpEnvironment;
